@@ -1178,3 +1178,34 @@ Lemma legacy_endtime_refuted :
   ~ In (5, W "A/b") (fst (yield_channel legacy false None (Some 5) false exD_dups)) /\
   In (5, W "A/b") (fst (yield_channel fixed false None (Some 5) false exD_dups)).
 Proof. split; vm_compute; [intros [H|[]]; discriminate|auto]. Qed.
+
+(* ------------------------------------------------------------------ the statements of the property, for the repaired code *)
+Section Statements.
+  Variables (ydmd : bool) (st en : option Z) (D : list sub).
+  Hypothesis Hss : strict_sorted D.
+  Hypothesis Hal : all_listed D.
+  Hypothesis Hco : consistent D.
+  Hypothesis Hnn : nonneg D.
+  Hypothesis Hw : window_wf st en.
+
+  Let fwd := fst (yield_channel fixed ydmd st en false D).
+
+  Lemma fwd_spec : fwd = spec_channel ydmd st en false D.
+  Proof. unfold fwd. rewrite channel_spec by assumption. reflexivity. Qed.
+
+  (* sound + complete + window-exact + forward-fill, as one equivalence *)
+  Theorem listing_in x :
+    In x fwd <->
+    In x (ffill_extra ydmd st en (all_files D)) \/ ((exists d, In d D /\ In x (F d)) /\ win st en x = true).
+  Proof. rewrite fwd_spec. apply spec_channel_in. Qed.
+
+  Theorem listing_nodup reverse : NoDup (flat_map F D) -> NoDup (fst (yield_channel fixed ydmd st en reverse D)).
+  Proof.
+    intro Hn. destruct reverse.
+    - rewrite reverse_is_rev. cbn [fst]. apply NoDup_rev. fold fwd. rewrite fwd_spec. apply spec_channel_nodup. exact Hn.
+    - fold fwd. rewrite fwd_spec. apply spec_channel_nodup. exact Hn.
+  Qed.
+
+  Theorem listing_sorted : StronglySorted dle fwd.
+  Proof. rewrite fwd_spec. apply spec_channel_sorted. Qed.
+End Statements.
